@@ -3,6 +3,7 @@
 -/
 import PyIkev2.Proofs.Selectors
 import PyIkev2.Proofs.HandlersChild
+import PyIkev2.Proofs.TwoEndsCreate
 
 namespace PyIkev2.Props.C12
 open PyIkev2 PyIkev2.Impl
@@ -163,5 +164,18 @@ theorem c12_concrete_initiator_never_widens (now : Nat) (response : Msg) (h : HM
   rcases responseHandler_kids now response h hh me succ tape sad cr hcr k hk with h1 | ⟨h1, h2, h3, h4, _⟩
   · exact Or.inl h1
   · exact Or.inr ⟨h1, h2, h3, h4⟩
+
+/-! ### both ends (two ends of the handler model, `Proofs/TwoEnds*.lean`) -/
+
+/-- after any sequence of CHILD_SA creations, rekeys and deletions started by either end (one exchange at a time, no handler raising):
+    a CHILD_SA the two ends share has the same mode at both ends, and each end's selectors are the other's the other way round -/
+theorem c12_concrete_both_ends_hold_mirrored_selectors_and_the_same_mode (now fuel : Nat) (ops : List ChildOp) (a b a' b' : HSt)
+    (h : Agree a b) (hx : opRun now fuel (a, b) ops = some (a', b'))
+    (ca cb : Child) (ha : ca ∈ a'.me.ext.kids) (hb : cb ∈ b'.me.ext.kids) (hv : ca.view = cb.peerView) :
+    ca.mode = cb.mode ∧ ca.tsi = cb.tsr ∧ ca.tsr = cb.tsi := by
+  have hag := Agree.opRun now fuel ops a b a' b' h hx
+  have := hag.paired ca ha cb hb hv
+  simp only [Child.rich, Child.peerRich, Prod.mk.injEq] at this
+  exact ⟨this.2.1, this.2.2.1, this.2.2.2⟩
 
 end PyIkev2.Props.C12
